@@ -392,10 +392,12 @@ def _prevalence(cm: _ConfusionMatrix) -> types.NumbersT:
 
 def _prevalence_threshold(cm: _ConfusionMatrix) -> types.NumbersT:
   """Prevalence threshold (PT)."""
-  tnr = _tnr(cm)
+  # Uses the false positive rate itself rather than 1 - tnr: without any
+  # negative example both rates are 0 by the zero-denominator convention.
+  fpr = _fpr(cm)
   tpr = _tpr(cm)
   return math_utils.safe_divide(
-      (math_utils.pos_sqrt(tpr * (1 - tnr)) + tnr - 1), (tpr + tnr - 1)
+      (math_utils.pos_sqrt(tpr * fpr) - fpr), (tpr - fpr)
   )
 
 
